@@ -239,17 +239,24 @@ func runC15(c *Ctx) {
 	R.Rule("R-validate-first", "E2+E3", "validateLine rejects CR and LF; in every method that validates an argument the failure edge reaches neither hello() nor any command nor a dial", 6)
 	if f := c.A.Func("validateLine"); f != nil {
 		ok := false
+		found := "" // the atom that says "a CR or LF was found"
 		allInstrs(f, func(in ssa.Instruction) {
-			if isStaticCall(in, "strings.ContainsAny") {
+			isAny, isIdx := isStaticCall(in, "strings.ContainsAny"), isStaticCall(in, "strings.IndexAny")
+			if isAny || isIdx {
 				if k, isK := constString(callCommon(in).Args[1]); isK && strings.Contains(k, "\r") && strings.Contains(k, "\n") && describe(callCommon(in).Args[0]) == "param0" {
 					ok = true
+					if isAny {
+						found = describe(in.(ssa.Value)) + " == true"
+					} else {
+						found = describe(in.(ssa.Value)) + " >= 0"
+					}
 				}
 			}
 		})
 		R.Ob("validateLine/rejects CR and LF", c.P.Pos(f.Pos()), ok, "validateLine does not test its argument for both CR and LF")
 		allInstrs(f, func(in ssa.Instruction) {
-			if r, isR := in.(*ssa.Return); isR && isNilConst(r.Results[0]) {
-				c.obUnreach("nil result", in, `strings.ContainsAny(param0,"\n\r") == true`)
+			if r, isR := in.(*ssa.Return); isR && isNilConst(r.Results[0]) && found != "" {
+				c.obUnreach("nil result although CR or LF was found", in, found)
 			}
 		})
 	}
